@@ -44,6 +44,20 @@ CLAIMED['C01'] = ('Coq invariant proof over Model/Dispatch.v + Runner.v (+ Paral
          'proof: for every task table, selection, --continue/--always, set-iteration oracle and fuel (= every prefix of every run) the serial runner model emits EExecute t only after a final report of every task in t.task_dep (explicit, wild-card, file_dep on a target, result_dep, delayed trigger), t.calc_dep and t.setup (incl. getargs) [C01_serial_dep_order]; the parallel statement (every PStart under every schedule) is given in Properties/C01.v as soon as Proofs/ParallelP.v is complete - until then the parallel runners are covered by the correspondence (all schedules of small graphs, random schedules beyond) and by the oracle on the implementation traces; real multiprocessing is sampled',
          'trusted: Coq kernel; hand models tied by 732 (quick) cases incl. all DAGs <= 3 tasks x all schedules k=2 for thread and process flavour, random graphs to 10 tasks with calc_dep/setup/getargs/failures; Dependency is a fake at the runner seam (status per task is an input); scheduler granularity assumption; process flavour simulated in threads with per-worker runner copies',
          'DESIGN.md 5-C01')
+CLAIMED['C02'] = ('Coq invariant proof (a node that passed its last `yield this_task` is spent and never handed to the runner again; executed => spent) over Model/Dispatch.v + Runner.v + correspondence of all runners + oracle',
+         'proof: in every serial run (any table, selection, flags, oracle, fuel) no task is executed twice [C02_exec_once_serial].  NOT yet proved: exactly one final report per closure task and nothing outside the closure (needs the progress invariant); both are checked on every implementation trace by the oracle, for all runners',
+         'trusted: as C01 (same models and correspondence harness); closure computed independently from the real Task objects after the run',
+         'DESIGN.md 5-C02')
+CLAIMED['C05'] = ('Coq trace-shape proof over Model/Runner.v (every failure report immediately preceded by remove_success) + correspondence of all runners with failure injection + real-backend failure histories',
+         'proof: in every serial run every failure report (TaskFailed, TaskError, unmet dependency, dependency error before or after execution) is immediately preceded by remove_success of that task [C05_failure_removed_serial].  Containment (no dependent of a failed task starts; --continue processes the rest; serial stops) is checked by the oracle on every implementation trace of all runners and by the correspondence; on the real Dependency (3 backends x 2 checkers x 6 failure kinds) a failed task is re-executed on the next run',
+         'trusted: as C01; the real-backend part uses the real Runner/MThreadRunner + Dependency',
+         'DESIGN.md 5-C05')
+CLAIMED['C11'] = ('Coq proofs over Model/Runner.v: teardown discipline by a trace invariant (teardown list = executed tasks with teardown), setup-before-task from the C01 invariant + correspondence/oracle for all runners',
+         'proof: serial runner - after the DB is closed the teardown reports are exactly the executed tasks with teardown, once each, in reverse order of execution, however the loop ended, and nothing else follows [C11_teardown_serial]; a task starts only after all its setup-tasks finished [C11_setup_before_task].  Laziness of setup-tasks and the per-worker teardown order of the parallel runners are checked by the oracle on every implementation trace',
+         'trusted: as C01', 'DESIGN.md 5-C11')
+CLAIMED['C19'] = ('Coq trace-shape proof over Model/Runner.v (exit code = function of the failure reports; body ++ close ++ teardowns ++ marker) + correspondence/oracle for all runners',
+         'proof: serial runner - the exit code is 0 iff no failure was reported, 1 iff only TaskFailed failures, 2 iff some error kind, 3 when a cycle is diagnosed; success reports are preceded by save_success and failure reports by remove_success [C19_serial_outcome, C19_exit_code_table].  One-final-report-per-task and report truthfulness for all runners (incl. reports forwarded from worker processes) are checked by the oracle on every implementation trace.  The built-in reporters text/JSON output is not modelled yet',
+         'trusted: as C01', 'DESIGN.md 5-C19')
 NOT_YET = {}
 
 def main():
